@@ -775,6 +775,90 @@ func stageE6(d *driver, seed uint64, n int, amb int) stageResult {
 	return s
 }
 
+// ---------------------------------------------------------------------------
+// SPEC: the real segmenters against the Lean reading of the annexes (monitor for C01-C04)
+
+// realVerdicts: one digit per interior code-point position: 0 no boundary, 1 boundary
+// (lines: 1 = may break, 2 = must break)
+func realVerdicts(kind string, b []byte, str bool) string {
+	segs, err := chainSegs(kind, b, str)
+	if err != "" {
+		return "ERR:" + err
+	}
+	ends := endSet(segs)
+	var sb strings.Builder
+	for i := 0; i < len(b); {
+		_, n := utf8.DecodeRune(b[i:])
+		i += n
+		if i >= len(b) {
+			break
+		}
+		if s, ok := ends[i]; ok {
+			if kind == "fl" && s.extra == 1 {
+				sb.WriteByte('2')
+			} else {
+				sb.WriteByte('1')
+			}
+		} else {
+			sb.WriteByte('0')
+		}
+	}
+	if sb.Len() == 0 {
+		return "-"
+	}
+	return sb.String()
+}
+
+var specAlg = map[string]string{"fg": "g", "fw": "w", "fs": "s", "fl": "l"}
+
+func stageSpec(d *driver, cs *caseSource, kindsWanted []string, thorough bool) stageResult {
+	s := stageResult{Name: "SPEC", Domain: "FirstGraphemeCluster/FirstWord/FirstSentence/FirstLineSegment (byte and string forms) chained from -1 on generated strings vs the declarative Lean readings of UAX #29 / UAX #14 (Spec/*.lean)"}
+	var ops, real []string
+	flush := func() {
+		if len(ops) > 0 {
+			compareOps(&s, d, ops, real)
+			ops, real = ops[:0], real[:0]
+		}
+	}
+	handle := func(b []byte) {
+		if len(b) == 0 {
+			return
+		}
+		for _, k := range kindsWanted {
+			rv := realVerdicts(k, b, false)
+			if rs := realVerdicts(k, b, true); rs != rv {
+				s.add("spec "+specAlg[k]+" "+hx(b), rv, rs, "byte form vs string form differ")
+			}
+			ops = append(ops, "spec "+specAlg[k]+" "+hx(b))
+			real = append(real, rv)
+		}
+		if len(ops) >= 20000 {
+			flush()
+		}
+	}
+	cs.each(func(i int, gc genCase) { handle(gc.input) })
+	if thorough {
+		for _, k := range kindsWanted {
+			alg := map[string]byte{"fg": 'G', "fw": 'W', "fs": 'S', "fl": 'L'}[k]
+			n := 3
+			if alg == 'G' {
+				n = 4
+			}
+			kk := k
+			shortSequences(alg, n, func(b []byte) {
+				rv := realVerdicts(kk, b, false)
+				ops = append(ops, "spec "+specAlg[kk]+" "+hx(b))
+				real = append(real, rv)
+				if len(ops) >= 20000 {
+					flush()
+				}
+			})
+		}
+	}
+	flush()
+	return s
+}
+
 func sortedKeys(m map[string]int) []string {
 	var ks []string
 	for k := range m {
